@@ -119,8 +119,13 @@ def source_kw(rng, cls, half_init=0.0):
         maybe("diameter", pos_dim(rng))
     elif cls == "Polyline":
         maybe("current", g8(rng, -2, 2))
-        n = rng.randint(2, 4)
-        maybe("vertices", path(rng, n, -1, 1))
+        n = rng.randint(2, 5)
+        verts = path(rng, n, -1, 1)
+        if n >= 3 and rng.random() < 0.2:
+            # a documented line break (None, None, None), or - rarely - a row that is only partly NaN
+            verts[rng.randint(1, n - 2)] = [None, None, None] if rng.random() < 0.6 else \
+                [None, verts[1][1], verts[1][2]]
+        maybe("vertices", verts)
     elif cls == "Dipole":
         maybe("moment", nz_vec3(rng))
     elif cls == "CustomSource":
